@@ -36,7 +36,8 @@ PROPS = {
     },
     'C16': {
         'crate': 'biscuit-auth',
-        'quick': [r'c16_term_(int|null|set_null|array|map|set_int)', r'c16_binary_\w+', r'c16_unary_and_closure', r'c16_check_kinds_and_scopes', r'c16_sigversion_\w+'],
+        'quick': [r'c16_term_(int|null|set_null|array|map|set_int)', r'c16_binary_\w+', r'c16_unary_and_closure', r'c16_check_kinds_and_scopes', r'c16_sigversion_\w+', r'c02_new_signature_version'],
+        'per_harness': {r'c02_\w+': {'unwindset': 'memcmp.0:200'}},
         'thorough': [r'c16_\w+'],
         'cap': {'quick': 300, 'thorough': 900},
         'functions': ['datalog::get_schema_version', 'datalog::SchemaVersion::{version,check_compatibility}',
@@ -98,12 +99,12 @@ PROPS = {
     },
     'C02': {
         'crate': 'biscuit-auth',
-        'quick': [r'c02_append_(after_block_v0_v0|after_block_v0_v1|third_party_after_block|after_two_blocks_v1|datalog_block_v0_v0)', r'c02_seal_after_block', r'c02_new_token_v[01]'],
+        'quick': [r'c02_append_(after_block_v0_v0|after_block_v0_v1|third_party_after_block|after_two_blocks_v1|datalog_block_v0_v0)', r'c02_seal_after_block', r'c02_new_token_v[01]', r'c02_to_proto_fields', r'c02_new_signature_version'],
         'thorough': [r'c02_\w+'],
         'cap': {'quick': 600, 'thorough': 1800},
         'per_harness': {r'c0[278]x?_\w+': {'unwindset': 'memcmp.0:200'}},
         'jobs': 4, 'mem_gb': 24,
-        'functions': ['format::SerializedBiscuit::{new_inner,append,append_serialized,seal,last_block}', 'crypto::sign_authority_block', 'format::convert::token_block_to_proto_block + prost encoding (empty blocks)', 'format::block_signature_version', 'crypto::{sign_block,generate_block_signature_payload_v0,generate_block_signature_payload_v1,generate_seal_signature_payload_v0}', 'crypto::TokenNext::keypair'],
+        'functions': ['format::SerializedBiscuit::{new,new_inner,append,append_serialized,seal,last_block,to_proto}', 'crypto::sign_authority_block', 'format::convert::token_block_to_proto_block + prost encoding (empty blocks)', 'format::block_signature_version', 'crypto::{sign_block,generate_block_signature_payload_v0,generate_block_signature_payload_v1,generate_seal_signature_payload_v0}', 'crypto::TokenNext::keypair'],
         'bounds': 'containers of 1..2 blocks (signature versions 0/1), one appended block (first- or third-party, ed25519 or secp256r1 next key, ed25519 or secp256r1 proof secret) or one seal; payloads 2 bytes, signatures 3 bytes, all bytes / key objects / signatures returned by the primitive symbolic',
         'stubs': ['crypto::KeyPair::sign -> oracle (symbolic signature, query recorded)', 'ed25519 public-key derivation -> uninterpreted function', 'p256 PublicKey::to_bytes -> stand-in', 'alloc::fmt::format'],
         'out': 'the real signatures; non-empty Datalog blocks (only empty blocks go through token::Block -> protobuf here); byte-exact protobuf round trips, base64, UnverifiedBiscuit; together with C01 (verification demands the same specified payloads) this gives "what the API signs is what verification accepts" for these operations only',
